@@ -9,7 +9,7 @@ from . import rails as R
 from ..gen import convo
 
 # an LLM-made text: marker, turn token, and optionally a free-form tail between tildes (C02 varies it: punctuation, apostrophes, ...)
-LLM_TEXT_RE = re.compile(r"LLM\[[a-z]#c\d+t\d+#\] generated answer(?: ~[^~\n]*~)?")
+LLM_TEXT_RE = re.compile(r"LLM\[[a-z]#c\d+t\d+#\] generated answer(?: ~[^~]*~)?")
 BOT_TASKS = {"general", "generate_bot_message", "generate_intent_steps_message"}
 
 
@@ -250,6 +250,8 @@ def check_c02(spec, rec, out, cfgclass, earlier):
         txt = m.group(0)
         if txt.endswith("~"):
             out.probe("llm_text_with_tail_in_reply")
+        if "\n" in txt:
+            out.probe("llm_text_multiline_in_reply")
         exp_seq, blocked_by, final = expected_chain(spec, "out", txt)
         full = [e for e in out_inv if e["text"] == txt]
         if len(full) == 0 or blocked_by is not None:
